@@ -151,7 +151,7 @@ Definition summary (o : op) : list kind :=
   | FindChild | FindAllChildren | FindDescendant | FindAllDescendants
   | FindSingleNodeByPath | FindAllNodesByPath => R [FKids; FName]
   | GetAncestry => R [FParent]
-  | ChildIndex => R [FKids]
+  | ChildIndex => R [FKids; FId; FName; FContent; FTail; FPrefix; FAttrs; FExtras; FNsmap; FParent]   (* a missing child: list.index puts repr(child) into the ValueError it raises, and repr reads every field *)
   | ListAttributes | AttributeValue => R [FAttrs]
   | GetNodeInstance => [KStoreRead]
   | ChildInsertIndex => R [FName; FKids]
